@@ -711,3 +711,349 @@ Proof.
   rewrite E2, E3. unfold f1, c2, c3. cbn [fst snd]. rewrite <- !Nat2Z.inj_add.
   split; apply ratio_q_close_l; try assumption; lia.
 Qed.
+
+(** * the expression before the repair: error analysis *)
+Definition eta64 : R := bpow radix2 (-1075).
+
+Lemma rnd_up : forall x, bpow radix2 (-1022) <= x -> rnd x <= x * (1 + u53).
+Proof.
+  intros x H. assert (X0 : 0 <= x) by (pose proof (bpow_ge_0 radix2 (-1022)); lra).
+  pose proof (rnd_rel x) as E. rewrite (Rabs_pos_eq x X0) in E. specialize (E H).
+  apply Rabs_le_inv in E. lra.
+Qed.
+Lemma rnd_dn : forall x, bpow radix2 (-1022) <= x -> x * (1 - u53) <= rnd x.
+Proof.
+  intros x H. assert (X0 : 0 <= x) by (pose proof (bpow_ge_0 radix2 (-1022)); lra).
+  pose proof (rnd_rel x) as E. rewrite (Rabs_pos_eq x X0) in E. specialize (E H).
+  apply Rabs_le_inv in E. lra.
+Qed.
+(** with the absolute term for the subnormal range *)
+Lemma rnd_dn_abs : forall x, 0 <= x -> x * (1 - u53) - eta64 <= rnd x.
+Proof.
+  intros x X0.
+  destruct (error_N_FLT radix2 (SpecFloat.emin prec emax) prec ltac:(reflexivity) (fun z => negb (Z.even z)) x)
+    as (eps & eta & He & Ht & _ & E).
+  change (round radix2 (FLT_exp (SpecFloat.emin prec emax) prec) (Znearest (fun z => negb (Z.even z))) x) with (rnd x) in E.
+  replace (/ 2 * bpow radix2 (- prec + 1)) with u53 in He.
+  2:{ unfold u53. change (- prec + 1)%Z with (1 + -53)%Z. rewrite bpow_plus. change (bpow radix2 1) with 2. field. }
+  replace (/ 2 * bpow radix2 (SpecFloat.emin prec emax)) with eta64 in Ht.
+  2:{ unfold eta64. change (SpecFloat.emin prec emax) with (1 + -1075)%Z. rewrite bpow_plus. change (bpow radix2 1) with 2. field. }
+  apply Rabs_le_inv in He. apply Rabs_le_inv in Ht. rewrite E.
+  assert (- u53 * x <= x * eps) by nra. lra.
+Qed.
+
+Lemma eta_le : eta64 <= u53 * u53.
+Proof. unfold eta64, u53. rewrite <- bpow_plus. apply bpow_le. lia. Qed.
+Lemma u53_normal : bpow radix2 (-1022) <= u53 * u53.
+Proof. unfold u53. rewrite <- bpow_plus. apply bpow_le. lia. Qed.
+
+Lemma pinned_parts : forall b2 p r, NNF b2 -> Fin p -> u53 <= B2R p <= 1 -> Fin r -> u53 <= B2R r <= 1 ->
+  let N := fmul (fmul (fadd f_one b2) p) r in
+  let D := fadd (fmul b2 p) r in
+  Fin N /\ Fin D /\ 0 <= B2R N /\ u53 <= B2R D /\
+  B2R N <= (1 + B2R b2) * B2R p * B2R r * ((1 + u53) * (1 + u53) * (1 + u53)) /\
+  (B2R b2 * B2R p + B2R r) * ((1 - u53) * (1 - u53)) <= B2R D.
+Proof.
+  intros b2 p r Hb Fp [P0 P1] Fr [R0 R1]. cbv zeta.
+  pose proof u53_pos as U. pose proof u53_lt_1 as U1. pose proof u53_normal as UN. pose proof eta_le as ET.
+  assert (Hp : NNF p) by (split; [exact Fp|lra]). assert (Hr : NNF r) by (split; [exact Fr|lra]).
+  destruct Hb as [Fb B0]. set (b := B2R b2) in *. set (P := B2R p) in *. set (R := B2R r) in *.
+  assert (BM : b <= MAXR) by (apply (NNF_le_MAX b2); split; assumption).
+  (* a = 1.0 + beta_sq *)
+  destruct (fadd_spec f_one b2 Fin_one Fb) as [Ea Fa].
+  { rewrite B2R_one. fold b. rewrite Rabs_pos_eq by (apply rnd_nonneg; lra).
+    apply Rle_lt_trans with MAXR; [|apply MAXR_lt_TOP]. apply rnd_MAX_plus_1. lra. }
+  rewrite B2R_one in Ea. fold b in Ea. set (A := fadd f_one b2) in *. set (a := B2R A) in *.
+  assert (a1 : 1 <= a) by (rewrite Ea; apply rnd_ge_fmt; [apply fmt_1|lra]).
+  assert (aU : a <= (1 + b) * (1 + u53)).
+  { rewrite Ea. apply rnd_up. apply Rle_trans with (u53 * u53); [exact UN|]. nra. }
+  assert (Ha : NNF A) by (split; [exact Fa|fold a; lra]).
+  (* a * precision *)
+  destruct (fmul_le1 A p Ha Hp P1) as ([Fap ap0] & Eap & _). fold a P in Eap.
+  set (ap := B2R (fmul A p)) in *.
+  assert (aP : u53 <= a * P) by nra.
+  assert (apL : u53 <= ap) by (rewrite Eap; apply rnd_ge_fmt; [apply fmt_u53|exact aP]).
+  assert (apU : ap <= a * P * (1 + u53)).
+  { rewrite Eap. apply rnd_up. apply Rle_trans with (u53 * u53); [exact UN|]. nra. }
+  (* (a * precision) * recall *)
+  destruct (fmul_le1 (fmul A p) r (conj Fap ap0) Hr R1) as ([Fapr apr0] & Eapr & _). fold ap R in Eapr.
+  set (apr := B2R (fmul (fmul A p) r)) in *.
+  assert (aprU : apr <= ap * R * (1 + u53)).
+  { rewrite Eapr. apply rnd_up. apply Rle_trans with (u53 * u53); [exact UN|]. nra. }
+  (* beta_sq * precision, + recall *)
+  destruct (fmul_le1 b2 p (conj Fb B0) Hp P1) as (Hbp & Ebp & _). fold b P in Ebp.
+  destruct (fadd_le1 (fmul b2 p) r Hbp Hr R1) as ([FD D0] & ED). fold R in ED.
+  destruct Hbp as [Fbp bp0]. set (bp := B2R (fmul b2 p)) in *.
+  assert (bpL : b * P * (1 - u53) - eta64 <= bp) by (rewrite Ebp; apply rnd_dn_abs; nra).
+  set (d := B2R (fadd (fmul b2 p) r)) in *.
+  assert (dR : u53 <= d) by (rewrite ED; apply rnd_ge_fmt; [apply fmt_u53|lra]).
+  assert (dL : (bp + R) * (1 - u53) <= d).
+  { rewrite ED. apply rnd_dn. apply Rle_trans with (u53 * u53); [exact UN|]. nra. }
+  repeat split; try assumption.
+  - (* numerator *)
+    assert (S1 : ap * R * (1 + u53) <= a * P * (1 + u53) * R * (1 + u53)).
+    { apply Rmult_le_compat_r; [lra|]. apply Rmult_le_compat_r; [lra|]. exact apU. }
+    assert (S2 : a * P * (1 + u53) * R * (1 + u53) <= (1 + b) * (1 + u53) * P * (1 + u53) * R * (1 + u53)).
+    { apply Rmult_le_compat_r; [lra|]. apply Rmult_le_compat_r; [lra|]. apply Rmult_le_compat_r; [lra|].
+      apply Rmult_le_compat_r; [lra|]. exact aU. }
+    replace ((1 + b) * P * R * ((1 + u53) * (1 + u53) * (1 + u53)))
+      with ((1 + b) * (1 + u53) * P * (1 + u53) * R * (1 + u53)) by ring.
+    lra.
+  - (* denominator *)
+    assert (E1 : eta64 <= u53 * R) by nra.
+    assert (S1 : (b * P + R) * (1 - u53) <= bp + R) by lra.
+    assert (S2 : (b * P + R) * (1 - u53) * (1 - u53) <= (bp + R) * (1 - u53)).
+    { apply Rmult_le_compat_r; [lra|exact S1]. }
+    replace ((b * P + R) * ((1 - u53) * (1 - u53))) with ((b * P + R) * (1 - u53) * (1 - u53)) by ring.
+    lra.
+Qed.
+
+Lemma u53_val : u53 = / 9007199254740992.
+Proof.
+  change u53 with (bpow radix2 (Z.opp 53)). rewrite bpow_opp. reflexivity.
+Qed.
+Definition u50 : R := bpow radix2 (-50).
+Lemma u50_val : u50 = / 1125899906842624.
+Proof.
+  change u50 with (bpow radix2 (Z.opp 50)). rewrite bpow_opp. reflexivity.
+Qed.
+Lemma fmt_1_u50 : fmt (1 + u50).
+Proof.
+  apply generic_format_FLT. apply (FLT_spec radix2 _ _ _ (Float radix2 (2 ^ 50 + 1) (-50))).
+  - unfold F2R. cbn [Fnum Fexp]. fold u50. rewrite plus_IZR.
+    change (IZR (2 ^ 50)) with (IZR (Zpower radix2 50)). rewrite IZR_Zpower by lia.
+    assert (bpow radix2 50 * u50 = 1) by (unfold u50; rewrite <- bpow_plus; reflexivity). lra.
+  - cbn [Fnum]. unfold prec. change (Zpower radix2 53) with (2 ^ 53)%Z. lia.
+  - cbn [Fexp]. unfold SpecFloat.emin, emax, prec. lia.
+Qed.
+
+(** the quotient before the repair, given a bound theta on the exact quotient of its float operands *)
+Lemma pinned_quot : forall b2 p r theta kappa,
+  NNF b2 -> Fin p -> u53 <= B2R p <= 1 -> Fin r -> u53 <= B2R r <= 1 ->
+  0 <= theta ->
+  (1 + B2R b2) * B2R p * B2R r <= theta * (B2R b2 * B2R p + B2R r) ->
+  theta * ((1 + u53) * (1 + u53) * (1 + u53)) <= kappa * ((1 - u53) * (1 - u53)) ->
+  fmt kappa -> kappa < TOP ->
+  Fin (fbeta_pinned b2 p r) /\ 0 <= B2R (fbeta_pinned b2 p r) <= kappa.
+Proof.
+  intros b2 p r theta kappa Hb Fp HP Fr HR T0 HT HK FK KT.
+  destruct (pinned_parts b2 p r Hb Fp HP Fr HR) as (FN & FD & N0 & DL & NU & DD).
+  unfold fbeta_pinned.
+  set (N := fmul (fmul (fadd f_one b2) p) r) in *. set (D := fadd (fmul b2 p) r) in *.
+  pose proof u53_pos as U. pose proof u53_lt_1 as U1.
+  set (c3 := (1 + u53) * (1 + u53) * (1 + u53)) in *. set (c2 := (1 - u53) * (1 - u53)) in *.
+  assert (C3 : 0 <= c3) by (unfold c3; apply Rmult_le_pos; [apply Rmult_le_pos|]; lra).
+  assert (C2 : 0 < c2) by (unfold c2; apply Rmult_lt_0_compat; lra).
+  set (D0 := B2R b2 * B2R p + B2R r) in *.
+  assert (D00 : 0 <= D0).
+  { unfold D0. destruct Hb as [_ B0]. assert (0 <= B2R b2 * B2R p) by (apply Rmult_le_pos; lra). lra. }
+  assert (K0 : 0 <= kappa).
+  { destruct (Rle_lt_dec 0 kappa) as [K|K]; [exact K|]. exfalso.
+    assert (0 <= theta * c3) by (apply Rmult_le_pos; assumption).
+    assert (0 < (- kappa) * c2) by (apply Rmult_lt_0_compat; lra).
+    lra. }
+  assert (ND : B2R N <= kappa * B2R D).
+  { apply Rle_trans with (theta * D0 * c3).
+    - eapply Rle_trans; [exact NU|]. apply Rmult_le_compat_r; [exact C3|exact HT].
+    - apply Rle_trans with (kappa * (D0 * c2)).
+      + replace (theta * D0 * c3) with (D0 * (theta * c3)) by ring.
+        replace (kappa * (D0 * c2)) with (D0 * (kappa * c2)) by ring.
+        apply Rmult_le_compat_l; assumption.
+      + apply Rmult_le_compat_l; assumption. }
+  set (i := / B2R D).
+  assert (i0 : 0 < i) by (apply Rinv_0_lt_compat; lra).
+  assert (Di : B2R D * i = 1) by (unfold i; field; lra).
+  assert (Q0 : 0 <= B2R N * i) by (apply Rmult_le_pos; lra).
+  assert (Q1 : B2R N * i <= kappa).
+  { assert (0 <= (kappa * B2R D - B2R N) * i) by (apply Rmult_le_pos; lra).
+    replace kappa with (kappa * (B2R D * i)) by (rewrite Di; ring). lra. }
+  destruct (fdiv_spec N D FN ltac:(lra)) as [E F].
+  { change (B2R N / B2R D) with (B2R N * i).
+    apply rnd_lt_TOP with kappa; [exact FK|exact KT|rewrite Rabs_pos_eq; assumption]. }
+  change (B2R N / B2R D) with (B2R N * i) in E. rewrite E.
+  repeat split; [exact F|apply rnd_nonneg; exact Q0|apply rnd_le_fmt; assumption].
+Qed.
+
+(** exact inequality of the defining formula on [0,1] x [0,1] *)
+Lemma fbeta_exact_le : forall b P R, 0 <= b -> 0 <= P <= 1 -> 0 <= R <= 1 -> (1 + b) * P * R <= b * P + R.
+Proof.
+  intros b P R B [P0 P1] [R0 R1].
+  assert (0 <= b * P * (1 - R)) by (apply Rmult_le_pos; [apply Rmult_le_pos|]; lra).
+  assert (0 <= R * (1 - P)) by (apply Rmult_le_pos; lra).
+  lra.
+Qed.
+
+Lemma fbeta_pinned_upper : forall b2 p r,
+  NNF b2 -> Fin p -> u53 <= B2R p <= 1 -> Fin r -> u53 <= B2R r <= 1 ->
+  Fin (fbeta_pinned b2 p r) /\ 0 <= B2R (fbeta_pinned b2 p r) <= 1 + u50.
+Proof.
+  intros b2 p r Hb Fp HP Fr HR. pose proof u53_pos as U.
+  apply (pinned_quot b2 p r 1 (1 + u50)); try assumption; try lra.
+  - rewrite Rmult_1_l. destruct Hb as [_ B0]. apply fbeta_exact_le; lra.
+  - rewrite u53_val, u50_val. lra.
+  - apply fmt_1_u50.
+  - pose proof two_lt_TOP. assert (u50 < 1) by (unfold u50; change 1 with (bpow radix2 0); apply bpow_lt; lia). lra.
+Qed.
+
+(** the F component of [_f1] (either expression): 0.0, or tp > 0 and the quotient was taken *)
+Lemma f1_gen_c1 : forall q beta tp fp fn,
+  (0 <= tp)%Z -> (0 <= fp)%Z -> (0 <= fn)%Z -> (tp + fp < 2 ^ 53)%Z -> (tp + fn < 2 ^ 53)%Z ->
+  c1f (f1_gen q beta tp fp fn) = f_zero \/
+  ((0 < tp)%Z /\ c1f (f1_gen q beta tp fp fn) = q (fmul beta beta) (ratio_fl tp (tp + fp)) (ratio_fl tp (tp + fn))).
+Proof.
+  intros q beta tp fp fn Htp Hfp Hfn H1 H2.
+  destruct (f1_gen_shape q beta tp fp fn) as (_ & _ & E1). rewrite E1. clear E1.
+  destruct (ratio_fl_spec tp (tp + fp) ltac:(lia) H1) as (Fp & _ & P01 & Pz & _).
+  destruct (ratio_fl_spec tp (tp + fn) ltac:(lia) H2) as (Fr & _ & R01 & Rz & _).
+  set (p := ratio_fl tp (tp + fp)) in *. set (r := ratio_fl tp (tp + fn)) in *.
+  destruct (fgt0 (fadd p r)) eqn:G; [right|left; reflexivity].
+  split; [|reflexivity].
+  destruct (Z_lt_le_dec 0 tp) as [T|T]; [exact T|]. exfalso.
+  assert (T0 : tp = 0%Z) by lia.
+  destruct (guard_spec p r (conj Fp P01) (conj Fr R01) G) as [X|X];
+    [rewrite (proj2 Pz T0) in X|rewrite (proj2 Rz T0) in X]; lra.
+Qed.
+
+(** (2)+(3b) the expression before the repair: finite, non-negative and at most 1 + 2^-50 *)
+Lemma f1_fl_upper_l : forall beta tp fp fn,
+  Fin (fmul beta beta) -> (Z.of_nat (tp + fp) < 2 ^ 53)%Z -> (Z.of_nat (tp + fn) < 2 ^ 53)%Z ->
+  Fin (c1f (f1_fl_pinned beta tp fp fn)) /\ 0 <= B2R (c1f (f1_fl_pinned beta tp fp fn)) <= 1 + u50.
+Proof.
+  intros beta tp fp fn Fb H1 H2. unfold f1_fl_pinned, f1_fl_pinned_z.
+  assert (U : 0 < u50) by apply bpow_gt_0.
+  destruct (f1_gen_c1 fbeta_pinned beta (Z.of_nat tp) (Z.of_nat fp) (Z.of_nat fn)) as [E|[T E]]; try lia; rewrite E.
+  - split; [reflexivity|]. rewrite B2R_zero. lra.
+  - destruct (ratio_fl_spec (Z.of_nat tp) (Z.of_nat tp + Z.of_nat fp) ltac:(lia) ltac:(lia)) as (Fp & _ & P01 & _ & _ & Pp & _).
+    destruct (ratio_fl_spec (Z.of_nat tp) (Z.of_nat tp + Z.of_nat fn) ltac:(lia) ltac:(lia)) as (Fr & _ & R01 & _ & _ & Rp & _).
+    apply fbeta_pinned_upper; [apply b2_NNF; exact Fb|exact Fp| |exact Fr|].
+    + split; [apply Pp; exact T|tauto].
+    + split; [apply Rp; exact T|tauto].
+Qed.
+
+(** * when F <= 1 does hold for the expression before the repair *)
+Definition g31 : R := bpow radix2 (-31).
+Lemma g31_val : g31 = / 2147483648.
+Proof. change g31 with (bpow radix2 (Z.opp 31)). rewrite bpow_opp. reflexivity. Qed.
+Lemma fmt_1_g31 : fmt (1 - g31).
+Proof.
+  apply generic_format_FLT. apply (FLT_spec radix2 _ _ _ (Float radix2 (2 ^ 31 - 1) (-31))).
+  - unfold F2R. cbn [Fnum Fexp]. fold g31. rewrite minus_IZR.
+    change (IZR (2 ^ 31)) with (IZR (Zpower radix2 31)). rewrite IZR_Zpower by lia.
+    assert (bpow radix2 31 * g31 = 1) by (unfold g31; rewrite <- bpow_plus; reflexivity). lra.
+  - cbn [Fnum]. unfold prec. change (Zpower radix2 53) with (2 ^ 53)%Z. lia.
+  - cbn [Fexp]. unfold SpecFloat.emin, emax, prec. lia.
+Qed.
+
+(** with denominators below 2^31 a ratio that is not 1 is at most 1 - 2^-31 *)
+Lemma ratio_fl_gap : forall a b, (0 <= a < b)%Z -> (b < 2 ^ 31)%Z -> B2R (ratio_fl a b) <= 1 - g31.
+Proof.
+  intros a b Hab Hb.
+  destruct (ratio_fl_spec a b ltac:(lia) ltac:(lia)) as (_ & E & _). rewrite E.
+  apply rnd_le_fmt; [apply fmt_1_g31|].
+  replace (Z.max b 1) with b by lia.
+  assert (B1 : 1 <= IZR b) by (apply (IZR_le 1); lia).
+  assert (B31 : IZR b <= 2147483648) by (apply (IZR_le b 2147483648); lia).
+  assert (AB : IZR a + 1 <= IZR b) by (rewrite <- (plus_IZR a 1); apply IZR_le; lia).
+  set (i := / IZR b). assert (i0 : 0 < i) by (apply Rinv_0_lt_compat; lra).
+  assert (Bi : IZR b * i = 1) by (unfold i; field; lra).
+  assert (G : g31 <= i).
+  { rewrite g31_val. unfold i. apply Rinv_le_contravar; lra. }
+  change (IZR a / IZR b) with (IZR a * i).
+  assert (0 <= (IZR b - IZR a - 1) * i) by (apply Rmult_le_pos; lra). lra.
+Qed.
+
+Lemma fbeta_pinned_one : forall b2 p r, NNF b2 -> Fin p -> Fin r -> B2R p = 1 -> B2R r = 1 ->
+  Fin (fbeta_pinned b2 p r) /\ B2R (fbeta_pinned b2 p r) = 1.
+Proof.
+  intros b2 p r Hb Fp Fr P1 R1.
+  assert (Hp : NNF p) by (split; [exact Fp|lra]). assert (Hr : NNF r) by (split; [exact Fr|lra]).
+  destruct Hb as [Fb B0].
+  assert (BM : B2R b2 <= MAXR) by (apply (NNF_le_MAX b2); split; assumption).
+  destruct (fadd_spec f_one b2 Fin_one Fb) as [Ea Fa].
+  { rewrite B2R_one. rewrite Rabs_pos_eq by (apply rnd_nonneg; lra).
+    apply Rle_lt_trans with MAXR; [|apply MAXR_lt_TOP]. apply rnd_MAX_plus_1. lra. }
+  rewrite B2R_one in Ea. set (A := fadd f_one b2) in *.
+  assert (a1 : 1 <= B2R A) by (rewrite Ea; apply rnd_ge_fmt; [apply fmt_1|lra]).
+  assert (Ha : NNF A) by (split; [exact Fa|lra]).
+  destruct (fmul_le1 A p Ha Hp ltac:(lra)) as (Hap & Eap & _).
+  rewrite P1, Rmult_1_r, (rnd_fmt _ (fmt_B2R A)) in Eap.
+  destruct (fmul_le1 (fmul A p) r Hap Hr ltac:(lra)) as ([FN N0] & EN & _).
+  rewrite R1, Rmult_1_r, Eap, (rnd_fmt _ (fmt_B2R A)) in EN.
+  destruct (fmul_le1 b2 p (conj Fb B0) Hp ltac:(lra)) as (Hbp & Ebp & _).
+  rewrite P1, Rmult_1_r, (rnd_fmt _ (fmt_B2R b2)) in Ebp.
+  destruct (fadd_le1 (fmul b2 p) r Hbp Hr ltac:(lra)) as ([FD D0] & ED). rewrite Ebp, R1 in ED.
+  unfold fbeta_pinned. fold A.
+  set (N := fmul (fmul A p) r) in *. set (D := fadd (fmul b2 p) r) in *.
+  assert (ND : B2R N = B2R D) by (rewrite EN, ED, Ea; f_equal; ring).
+  assert (Q : B2R N / B2R D = 1) by (rewrite ND; field; lra).
+  destruct (fdiv_spec N D FN ltac:(lra)) as [E F].
+  { rewrite Q, (rnd_fmt _ fmt_1), Rabs_pos_eq by lra. apply one_lt_TOP. }
+  split; [exact F|]. rewrite E, Q. apply rnd_fmt, fmt_1.
+Qed.
+
+Lemma bpow18_val : bpow radix2 18 = 262144.
+Proof. reflexivity. Qed.
+Lemma bpowm18_val : bpow radix2 (-18) = / 262144.
+Proof. reflexivity. Qed.
+
+Lemma theta_bound : forall b P R,
+  / 262144 <= b <= 262144 -> 0 <= P <= 1 -> 0 <= R <= 1 ->
+  (P = 1 \/ P <= 1 - g31) -> (R = 1 \/ R <= 1 - g31) -> ~ (P = 1 /\ R = 1) ->
+  (1 + b) * P * R <= (1 - u50) * (b * P + R).
+Proof.
+  intros b P R [B0 B1] [P0 P1] [R0 R1] HP HR HN.
+  pose proof g31_val as G. pose proof u50_val as U.
+  destruct HP as [->|HP]; destruct HR as [->|HR].
+  - exfalso. apply HN. split; reflexivity.
+  - (* precision exactly 1 *)
+    assert (S1 : 0 <= b * ((1 - R) - g31)) by (apply Rmult_le_pos; lra).
+    assert (S2 : (g31 - u50) * / 262144 <= (g31 - u50) * b) by (apply Rmult_le_compat_l; lra).
+    assert (S3 : u50 * R <= u50 * 1) by (apply Rmult_le_compat_l; lra).
+    lra.
+  - (* recall exactly 1 *)
+    assert (S1 : b * P <= 262144 * 1) by (apply Rmult_le_compat; lra).
+    assert (S2 : u50 * (b * P) <= u50 * 262144) by (apply Rmult_le_compat_l; lra).
+    lra.
+  - assert (S1 : 0 <= b * P * ((1 - R) - g31)) by (apply Rmult_le_pos; [apply Rmult_le_pos|]; lra).
+    assert (S2 : 0 <= R * ((1 - P) - g31)) by (apply Rmult_le_pos; lra).
+    assert (S3 : 0 <= (g31 - u50) * (b * P + R)).
+    { apply Rmult_le_pos; [lra|]. assert (0 <= b * P) by (apply Rmult_le_pos; lra). lra. }
+    lra.
+Qed.
+
+Lemma f1_fl_le_1_partial_l : forall beta tp fp fn,
+  Fin (fmul beta beta) -> bpow radix2 (-18) <= B2R (fmul beta beta) <= bpow radix2 18 ->
+  (Z.of_nat (tp + fp) < 2 ^ 31)%Z -> (Z.of_nat (tp + fn) < 2 ^ 31)%Z ->
+  Fin (c1f (f1_fl_pinned beta tp fp fn)) /\ 0 <= B2R (c1f (f1_fl_pinned beta tp fp fn)) <= 1.
+Proof.
+  intros beta tp fp fn Fb HB H1 H2. unfold f1_fl_pinned, f1_fl_pinned_z.
+  rewrite bpow18_val, bpowm18_val in HB.
+  destruct (f1_gen_c1 fbeta_pinned beta (Z.of_nat tp) (Z.of_nat fp) (Z.of_nat fn)) as [E|[T E]]; try lia; rewrite E.
+  - split; [reflexivity|]. rewrite B2R_zero. lra.
+  - destruct (ratio_fl_spec (Z.of_nat tp) (Z.of_nat tp + Z.of_nat fp) ltac:(lia) ltac:(lia)) as (Fp & _ & P01 & _ & Pone & Pp & _).
+    destruct (ratio_fl_spec (Z.of_nat tp) (Z.of_nat tp + Z.of_nat fn) ltac:(lia) ltac:(lia)) as (Fr & _ & R01 & _ & Rone & Rp & _).
+    specialize (Pp T). specialize (Rp T).
+    assert (GP : B2R (ratio_fl (Z.of_nat tp) (Z.of_nat tp + Z.of_nat fp)) = 1 \/
+                 B2R (ratio_fl (Z.of_nat tp) (Z.of_nat tp + Z.of_nat fp)) <= 1 - g31).
+    { destruct (Nat.eq_dec fp 0) as [->|N]; [left; apply Pone; lia|right; apply ratio_fl_gap; lia]. }
+    assert (GR : B2R (ratio_fl (Z.of_nat tp) (Z.of_nat tp + Z.of_nat fn)) = 1 \/
+                 B2R (ratio_fl (Z.of_nat tp) (Z.of_nat tp + Z.of_nat fn)) <= 1 - g31).
+    { destruct (Nat.eq_dec fn 0) as [->|N]; [left; apply Rone; lia|right; apply ratio_fl_gap; lia]. }
+    set (p := ratio_fl (Z.of_nat tp) (Z.of_nat tp + Z.of_nat fp)) in *.
+    set (r := ratio_fl (Z.of_nat tp) (Z.of_nat tp + Z.of_nat fn)) in *.
+    pose proof (b2_NNF beta Fb) as Hb.
+    destruct (Req_dec (B2R p) 1) as [P1|P1]; [destruct (Req_dec (B2R r) 1) as [R1|R1]|].
+    + destruct (fbeta_pinned_one (fmul beta beta) p r Hb Fp Fr P1 R1) as [F Q]. split; [exact F|]. rewrite Q. lra.
+    + apply (pinned_quot (fmul beta beta) p r (1 - u50) 1); try assumption; try tauto.
+      * pose proof u50_val. lra.
+      * apply theta_bound; try assumption; tauto.
+      * rewrite u53_val, u50_val. lra.
+      * apply fmt_1.
+      * apply one_lt_TOP.
+    + apply (pinned_quot (fmul beta beta) p r (1 - u50) 1); try assumption; try tauto.
+      * pose proof u50_val. lra.
+      * apply theta_bound; try assumption; tauto.
+      * rewrite u53_val, u50_val. lra.
+      * apply fmt_1.
+      * apply one_lt_TOP.
+Qed.
